@@ -214,6 +214,48 @@ class _TupleSub(ast.NodeTransformer):
         return n
 
 
+def keyset_of(index, e: ast.AST):
+    if isinstance(e, ast.Call) and src(e.func) in ('set', 'list', 'tuple', 'frozenset',
+                                                   'sorted') and len(e.args) == 1:
+        return keyset_of(index, e.args[0])
+    if isinstance(e, ast.BinOp) and isinstance(e.op, (ast.Add, ast.BitOr)):
+        a_, b_ = keyset_of(index, e.left), keyset_of(index, e.right)
+        if a_ and b_ and a_[0] == b_[0] and {a_[1], b_[1]} == {'req', 'opt'}:
+            return (a_[0], 'all')
+        return None
+    if isinstance(e, (ast.ListComp, ast.SetComp, ast.GeneratorExp)) and \
+            len(e.generators) == 1 and isinstance(e.generators[0].target, ast.Name):
+        g_ = e.generators[0]
+        v_ = g_.target.id
+        if src(e.elt) != f'{v_}.name':
+            return None
+        it_ = g_.iter
+        pre = 'all'
+        rq = _required_keyword(index)
+        if rq and isinstance(it_, ast.Call) and isinstance(it_.func, ast.Attribute) \
+                and it_.func.attr == 'get_nonprotocol_parameters':
+            kws = {k.arg: k.value for k in it_.keywords}
+            if set(kws) - {rq}:
+                return None
+            if rq in kws:
+                if not (isinstance(kws[rq], ast.Constant) and
+                        kws[rq].value in (True, False, None)):
+                    return None
+                pre = {True: 'req', False: 'opt', None: 'all'}[kws[rq].value]
+                it_ = ast.Call(it_.func, it_.args, [])
+        if not g_.ifs:
+            return (src(it_), pre)
+        if pre != 'all':
+            return None
+        if len(g_.ifs) == 1:
+            t_ = src(g_.ifs[0])
+            if t_ == f'{v_}.default is inspect.Parameter.empty':
+                return (src(g_.iter), 'req')
+            if t_ == f'{v_}.default is not inspect.Parameter.empty':
+                return (src(g_.iter), 'opt')
+    return None
+
+
 def factory_denotation(f: Func, slots: Dict[str, str], index=None) -> Dict[str, Any]:
     """what a `factory(name, **kwargs)` does, independent of how it names intermediate values:
     the order of the pipeline calls, the arguments of the required-key check and the returned
@@ -310,8 +352,31 @@ def factory_denotation(f: Func, slots: Dict[str, str], index=None) -> Dict[str, 
             t = t.value
         if isinstance(t, ast.Name) and t.id == kw:
             edits.append(canon(e.stmt if e.stmt is not None else e.node)[:160])
-    return {'order': order, 'check': check, 'ret': ret, 'raises': raises, 'lookups': lookups,
-            'edits': edits}
+    def canon_keys(text):
+        # the key collections as what they denote (which parameters: required / optional /
+        # all), so that `req + opt` and `[p.name for p in params]` compare equal -- the
+        # selection is by membership, the order of the collection does not matter
+        if index is None or not text:
+            return text
+        try:
+            te = ast.parse(text, mode='eval').body
+        except SyntaxError:
+            return text
+
+        class K(ast.NodeTransformer):
+            def visit_Call(self, c):
+                self.generic_visit(c)
+                if isinstance(c.func, ast.Name) and c.func.id in ('select_kwargs',
+                                                                  'checkraise_kwargs') \
+                        and len(c.args) == 2 and not c.keywords:
+                    ks = keyset_of(index, c.args[1])
+                    if ks is not None:
+                        c.args[1] = ast.Constant(f'<{ks[1]} names of {ks[0]}>')
+                return c
+        return src(ast.fix_missing_locations(K().visit(te)))
+    return {'order': order, 'check': canon_keys(check), 'ret': [canon_keys(r) for r in ret],
+            'raises': raises, 'lookups': lookups, 'edits': edits,
+            'check_raw': check, 'ret_raw': ret}
 
 
 def _str_eval(e: ast.AST, env: Dict[str, str], mod) -> str:
@@ -867,7 +932,7 @@ def factory_rules(index: RepoIndex, rep, rule: str) -> None:
         norm[r] = factory_denotation(f, {f'{r}_function_registry': 'REGISTRY'}, index)
     base = norm['reset']
     for r, f in sorted(facts.items()):
-        diff = [k for k in base if norm[r][k] != base[k]]
+        diff = [k for k in base if norm[r][k] != base[k] and not k.endswith('_raw')]
         rep.check(not diff, rule, ROLE_FILE[r], 'factory', f.node.lineno,
                   f'{r} factory', f'the {r} factory differs from its five siblings beyond the '
                   f'registry and the error text (in {diff})', f'{r} factory sibling-equal')
@@ -897,54 +962,17 @@ def factory_rules(index: RepoIndex, rep, rule: str) -> None:
     params_e = f'REGISTRY.get_nonprotocol_parameters(inspect.signature({FN}))'
     REQ = f'[_v0.name for _v0 in {params_e} if _v0.default is inspect.Parameter.empty]'
     OPT = f'[_v1.name for _v1 in {params_e} if _v1.default is not inspect.Parameter.empty]'
-    ok = base['check'] == f'checkraise_kwargs(kwargs, {REQ})' and \
-        base['ret'] == [f'partial({FN}, **select_kwargs(kwargs, {REQ} + {OPT}))']
+    ok = base['check_raw'] == f'checkraise_kwargs(kwargs, {REQ})' and \
+        base['ret_raw'] == [f'partial({FN}, **select_kwargs(kwargs, {REQ} + {OPT}))']
     if not ok:
         # second reading: the key collections as sets of parameter names -- (source, 'req' /
         # 'opt' / 'all') -- whatever comprehension, set or concatenation spells them
         def keyset(e: ast.AST):
-            if isinstance(e, ast.Call) and src(e.func) in ('set', 'list', 'tuple', 'frozenset',
-                                                           'sorted') and len(e.args) == 1:
-                return keyset(e.args[0])
-            if isinstance(e, ast.BinOp) and isinstance(e.op, (ast.Add, ast.BitOr)):
-                a_, b_ = keyset(e.left), keyset(e.right)
-                if a_ and b_ and a_[0] == b_[0] and {a_[1], b_[1]} == {'req', 'opt'}:
-                    return (a_[0], 'all')
-                return None
-            if isinstance(e, (ast.ListComp, ast.SetComp, ast.GeneratorExp)) and \
-                    len(e.generators) == 1 and isinstance(e.generators[0].target, ast.Name):
-                g_ = e.generators[0]
-                v_ = g_.target.id
-                if src(e.elt) != f'{v_}.name':
-                    return None
-                it_ = g_.iter
-                pre = 'all'
-                rq = _required_keyword(index)
-                if rq and isinstance(it_, ast.Call) and isinstance(it_.func, ast.Attribute) \
-                        and it_.func.attr == 'get_nonprotocol_parameters':
-                    kws = {k.arg: k.value for k in it_.keywords}
-                    if set(kws) - {rq}:
-                        return None
-                    if rq in kws:
-                        if not (isinstance(kws[rq], ast.Constant) and
-                                kws[rq].value in (True, False, None)):
-                            return None
-                        pre = {True: 'req', False: 'opt', None: 'all'}[kws[rq].value]
-                        it_ = ast.Call(it_.func, it_.args, [])
-                if not g_.ifs:
-                    return (src(it_), pre)
-                if pre != 'all':
-                    return None
-                if len(g_.ifs) == 1:
-                    t_ = src(g_.ifs[0])
-                    if t_ == f'{v_}.default is inspect.Parameter.empty':
-                        return (src(g_.iter), 'req')
-                    if t_ == f'{v_}.default is not inspect.Parameter.empty':
-                        return (src(g_.iter), 'opt')
-            return None
+            return keyset_of(index, e)
         try:
-            chk = ast.parse(base['check'] or 'None', mode='eval').body
-            rt_ = ast.parse(base['ret'][0], mode='eval').body if len(base['ret']) == 1 else None
+            chk = ast.parse(base['check_raw'] or 'None', mode='eval').body
+            rt_ = ast.parse(base['ret_raw'][0], mode='eval').body \
+                if len(base['ret_raw']) == 1 else None
         except SyntaxError:
             chk = rt_ = None
         ok = isinstance(chk, ast.Call) and src(chk.func) == 'checkraise_kwargs' and \
@@ -962,7 +990,7 @@ def factory_rules(index: RepoIndex, rep, rule: str) -> None:
         # memoised registry method, a helper with its own control flow): not a verdict
         from ..pinned_names import FUNCTIONS as _PF, METHODS as _PM
         unread = set()
-        for t_ in [base['check'] or ''] + list(base['ret']):
+        for t_ in [base['check_raw'] or ''] + list(base['ret_raw']):
             try:
                 te = ast.parse(t_, mode='eval').body
             except SyntaxError:
